@@ -23,7 +23,7 @@ KISSAT = ['--unwind', '16', '--external-sat-solver', 'kissat']
 NATIVE = ['-fno-sanitize=null']
 T_ONLY = ['thorough']
 
-def deque(prog, nsteal, nthief, ninit, head, rounds, K=1, tiers=('quick', 'thorough'), extra=None, timeout=900, tso=False):
+def deque(prog, nsteal, nthief, ninit, head, rounds, K=1, tiers=('quick', 'thorough'), extra=None, timeout=900, tso=False, mem_gb=12):
     p = (prog + 'nnn')[:3]
     sc = {'NINIT': ninit, 'HEAD': head, 'ROUNDS': rounds}
     sc.update(extra or {})
@@ -37,7 +37,7 @@ def deque(prog, nsteal, nthief, ninit, head, rounds, K=1, tiers=('quick', 'thoro
                                                   '_k%d' % K if K > 1 else '', '_tso' if tso else ''),
         unit=slot_unit(prog, nsteal, nthief, K, tso), harness='h_deque.c',
         defines={'NTHIEF': nthief, 'NS1': nsteal, 'OP0': OPC[p[0]], 'OP1': OPC[p[1]], 'OP2': OPC[p[2]]},
-        scenarios=[sc], tiers=list(tiers), timeout=timeout, cbmc=KISSAT, native_cflags=NATIVE,
+        scenarios=[sc], tiers=list(tiers), timeout=timeout, mem_gb=mem_gb, cbmc=KISSAT, native_cflags=NATIVE,
         desc='real arena_slot deque (get_task/get_task_impl/spawn/prepare_task_pool/steal_task/lock+acquire/release of the pool): owner program "%s" '
              '(g=get_task, s=spawn) vs %d thief(s) x %d steal_task, %d initial task(s) at head=%d; every task handed out at most once, '
              'handed out + still in [head,tail) == initial + spawned, pool accesses in bounds, pool lock handed back%s'
@@ -64,7 +64,7 @@ deque('sg', 1, 1, 2, 62, 3, K=2, tiers=T_ONLY, timeout=3000)
 deque('ss', 1, 1, 1, 63, 3, tiers=T_ONLY, timeout=3000)
 deque('gg', 1, 1, 2, 0, 3, extra={'ISO': 1}, tiers=T_ONLY, timeout=3000)
 deque('gg', 1, 1, 3, 0, 3, extra={'HOLE': 1}, tiers=T_ONLY, timeout=3000)
-deque('g', 1, 1, 1, 0, 3, tso=True, tiers=T_ONLY, timeout=3000)
+deque('g', 1, 1, 1, 0, 2, tso=True, tiers=T_ONLY, timeout=3600, mem_gb=16)   # the --tail / ++head full-fence pair is a store-buffer question
 
 def mail_unit(sprog, nmail, K=1):
     name = 'mail_%s_m%d_k%d' % (sprog, nmail, K)
